@@ -52,14 +52,19 @@ Drop == /\ l <= Len(Trace) /\ Ev.op = "Drop"
               /\ live' = a.s.live /\ cur' = a.s.cur /\ nextId' = a.s.nextId
         /\ l' = l + 1
 
-Call == /\ l <= Len(Trace) /\ Ev.op \notin {"New", "Drop", "NextN"} /\ ~Has(Ev, "crash")
+\* Types: the same process holds maps of other instantiations (interface-typed keys or values among them); a fixed script
+\* ran on each of them, interleaved, and was compared with a plain sequence: no call panicked, no reply differed
+Types == /\ l <= Len(Trace) /\ Ev.op = "Types" /\ ~Has(Ev, "crash") /\ Ev.wrong = 0
+         /\ UNCHANGED <<live, cur, nextId>> /\ l' = l + 1
+
+Call == /\ l <= Len(Trace) /\ Ev.op \notin {"New", "Drop", "NextN", "Types"} /\ ~Has(Ev, "crash")
         /\ LET a == OM!Apply([live |-> live, cur |-> cur, nextId |-> nextId], CallOf(Ev))
            IN /\ CheckReplies => Matches(Ev, a.res)
               /\ CheckRetention => RetentionOK(Ev)
               /\ live' = a.s.live /\ cur' = a.s.cur /\ nextId' = a.s.nextId
         /\ l' = l + 1
 
-Next == New \/ Call \/ Drop \/ NextN
+Next == New \/ Call \/ Drop \/ NextN \/ Types
 Spec == Init /\ [][Next]_<<live, cur, nextId, l>>
 Accepted == AcceptByDiameter
 =============================================================================
